@@ -180,6 +180,11 @@ PROPS["C16"]["trusted_base"] = PROPS["C16"]["trusted_base"] + TB_SCHED
 PROPS["C03"]["components"].append(Sched("tc", 1500, 60000, label="sched-tc-gate"))
 PROPS["C03"]["trusted_base"] = PROPS["C03"]["trusted_base"] + TB_SCHED
 
+PROPS["C01"]["components"].append(Sched("shed", 3000, 150000, exhaustive_limit=3000, conformance="tr-call", only="C01:"))
+PROPS["C01"]["rule"] += " shed (schedules): 2-4 threads among OpenCircuit / failing call (the opener says open) / succeeding call race on a circuit with the real hystrix closer whose sleep window never elapses and which cannot close; monitors: a call that starts after an opening completed is never run and gets the circuit-open error; one short-circuit event per shed call; every atomic step conforms to the Lean small-step model Conc/Call (K2)."
+PROPS["C01"]["trusted_base"] = TB_CIRCUIT + TB_SCHED
+PROPS["C03"]["components"].append(Sched("shed", 3000, 150000, label="sched-shed-window", only="C03:"))
+PROPS["C03"]["rule"] += " shed (schedules): callers racing the opening transition with the real hystrix closer: a call whose own reading of the circuit said open never runs inside the sleep window."
 PROPS["C17"]["components"].append(Sched("mgr", 2000, 100000, exhaustive_limit=3000, conformance="tr-mgr"))
 PROPS["C17"]["rule"] += " mgr (schedules): 2-4 threads among CreateCircuit(same name) / CreateCircuit(other) / GetCircuit / AllCircuits / Var on one Manager, with and without a StatFactory, under the cooperative scheduler; quiescent monitor: exactly one winner, stable handle, AllCircuits = successful creations, stats binding."
 PROPS["C17"]["trusted_base"] = PROPS["C17"]["trusted_base"] + TB_SCHED
